@@ -17,7 +17,7 @@
 #endif
 char* gp_line; char** gpp_pos; const char* gp_arg;
 int g_len, g_off, g_k, g_w, g_calls, g_tl, g_num, g_added, g_add_same, g_cadded, v_nret, g_scan_end;
-char v_k, v_arg_k, v_arg_end, v_arg_0, v_c0, v_c1, v_c2, v_c3; double v_ret;
+char v_k, v_arg_k, v_arg_end, v_arg_0, v_c0, v_c1, v_c2, v_c3; double v_ret; int g_rec[3];
 char nondet_char(void);
 static void havoc_ghosts(void)
 {
@@ -165,30 +165,32 @@ void h_readInfinity(void) { char* line; int n, off; int* off_out; havoc_ghosts()
  * is shorter than TOKCAP characters.  (The copy loop `*t++ = *pos` writes through a pointer it advances; under a loop contract
  * every such write becomes a case split over all objects and does not fit in memory, so that loop is unwound completely,
  * TOKCAP+1 times.  Longer tokens - in particular those that overflow tmp - are outside this instance.) */
-double w_readValue(char* line, int n, int off, int* off_out, int* tl_out, int* end_out)
-__CPROVER_requires(LINE_OK(line, n, off) && HEAD4(line, off) && FRESH_OUT(off_out) && FRESH_OUT(tl_out) && FRESH_OUT(end_out))
+/* out[0] = offset of pos on return, out[1] = T, out[2] = pos[T];  g_rec[0] = number of atof calls, g_rec[1] = arg[g_k], g_rec[2] = arg[g_tl]
+ * (few assigns targets: every write through a pointer is checked against each of them) */
+double w_readValue(char* line, int n, int off, int* out)
+__CPROVER_requires(LINE_OK(line, n, off) && HEAD4(line, off) && __CPROVER_is_fresh(out, 3 * sizeof(int)))
 __CPROVER_requires(IS_VALUE(v_c0))                                        /* every call site checks LPFisValue(pos) first */
 __CPROVER_requires(0 <= g_w && g_w < TOKCAP && g_w <= g_len - off && !IS_TOKCHAR(line[off + g_w]))
 __CPROVER_requires(GHOST_K(line, off) && g_k < g_len - off && 0 <= g_tl && g_tl <= g_len - off)
-__CPROVER_requires(g_calls == 0)
-__CPROVER_assigns(gp_line, gpp_pos, gp_arg, *off_out, *tl_out, *end_out, g_calls, v_arg_k, v_arg_end, v_ret)
+__CPROVER_requires(g_rec[0] == 0)
+__CPROVER_assigns(__CPROVER_object_whole(out), __CPROVER_object_whole(g_rec), v_ret)
 /* pos ends inside the line, behind the token and one optional blank */
-__CPROVER_ensures(1 <= *tl_out && off + *tl_out <= g_len && *end_out == line[off + *tl_out])
-__CPROVER_ensures(*off_out == off + *tl_out + (IS_SPACE(*end_out) ? 1 : 0) && *off_out <= g_len)
+__CPROVER_ensures(1 <= out[1] && off + out[1] <= g_len && out[2] == line[off + out[1]])
+__CPROVER_ensures(out[0] == off + out[1] + (IS_SPACE(out[2]) ? 1 : 0) && out[0] <= g_len)
 /* the token consists of number characters only and is not followed by a digit */
-__CPROVER_ensures(g_k < *tl_out ==> IS_TOKCHAR(v_k))
-__CPROVER_ensures(!IS_DIGIT(*end_out))
+__CPROVER_ensures(g_k < out[1] ==> IS_TOKCHAR(v_k))
+__CPROVER_ensures(!IS_DIGIT(out[2]))
 /* atof is called at most once; if it is, it is handed exactly the token, NUL-terminated, and its result is returned */
-__CPROVER_ensures(g_calls <= 1)
-__CPROVER_ensures((g_calls == 1 && g_tl == *tl_out) ==> (v_arg_end == 0 && (g_k < g_tl ==> v_arg_k == v_k)))
-__CPROVER_ensures(g_calls == 1 ==> (__CPROVER_return_value == v_ret || (__CPROVER_return_value != __CPROVER_return_value && v_ret != v_ret)))
+__CPROVER_ensures(g_rec[0] <= 1)
+__CPROVER_ensures((g_rec[0] == 1 && g_tl == out[1]) ==> (g_rec[2] == 0 && (g_k < g_tl ==> g_rec[1] == v_k)))
+__CPROVER_ensures(g_rec[0] == 1 ==> (__CPROVER_return_value == v_ret || (__CPROVER_return_value != __CPROVER_return_value && v_ret != v_ret)))
 /* atof is called iff the mantissa has a digit; in particular whenever a digit follows the optional sign.  Otherwise ("+", "-",
  * ".", "-e5", ...) the value is the sign: +-1 */
-__CPROVER_ensures(IS_DIGIT(V_CAS) ==> g_calls == 1)
-__CPROVER_ensures(g_calls == 0 ==> __CPROVER_return_value == (v_c0 == '-' ? -1.0 : 1.0))
-__CPROVER_ensures(((*tl_out == 1 || (*tl_out == 2 && (v_c0 == '+' || v_c0 == '-'))) && !IS_DIGIT(V_CAS)) ==> g_calls == 0)
+__CPROVER_ensures(IS_DIGIT(V_CAS) ==> g_rec[0] == 1)
+__CPROVER_ensures(g_rec[0] == 0 ==> __CPROVER_return_value == (v_c0 == '-' ? -1.0 : 1.0))
+__CPROVER_ensures(((out[1] == 1 || (out[1] == 2 && (v_c0 == '+' || v_c0 == '-'))) && !IS_DIGIT(V_CAS)) ==> g_rec[0] == 0)
 ;
-void h_readValue(void) { char* line; int n, off; int* off_out; int* tl_out; int* end_out; havoc_ghosts(); w_readValue(line, n, off, off_out, tl_out, end_out); CANARY(); }
+void h_readValue(void) { char* line; int n, off; int* out; havoc_ghosts(); g_rec[1] = nondet_int(); g_rec[2] = nondet_int(); w_readValue(line, n, off, out); CANARY(); }
 #endif
 
 /* ======================================================================================================= */
